@@ -388,9 +388,21 @@ impl Updater<'_> {
       rune_updater.update()?;
     }
 
+    #[cfg(feature = "verif")]
+    crate::verif::crash_point("mid_block");
+
     height_to_block_header.insert(&self.height, &block.header.store())?;
 
     self.height += 1;
+
+    #[cfg(feature = "verif")]
+    {
+      crate::verif::emit(
+        "BlockIndexed",
+        serde_json::json!({"height": self.height - 1, "hash": block.header.block_hash().to_string()}),
+      );
+      crate::verif::crash_point("post_block");
+    }
     self.outputs_traversed += outputs_in_block;
 
     log::info!(
@@ -871,11 +883,20 @@ impl Updater<'_> {
     Index::increment_statistic(&wtx, Statistic::SatRanges, self.sat_ranges_since_flush)?;
     self.sat_ranges_since_flush = 0;
     Index::increment_statistic(&wtx, Statistic::Commits, 1)?;
+    #[cfg(feature = "verif")]
+    crate::verif::crash_point("pre_commit_main");
     wtx.commit()?;
+    #[cfg(feature = "verif")]
+    {
+      crate::verif::emit("CommitMain", serde_json::json!({"height": self.height}));
+      crate::verif::crash_point("post_commit_main");
+    }
 
     // Commit twice since due to a bug redb will only reuse pages freed in the
     // transaction before last.
     self.index.begin_write()?.commit()?;
+    #[cfg(feature = "verif")]
+    crate::verif::crash_point("post_commit_empty");
 
     Reorg::update_savepoints(self.index, self.height)?;
 
